@@ -20,6 +20,7 @@ int64_t vfh_clock_get_ms(void);
 void vfh_clock_advance_ms(int64_t d);
 void vfh_epoch_set(int64_t base);
 extern uint64_t vfh_entropy_calls, vfh_entropy_bytes;
+extern int vfh_trace;
 extern void (*vfh_entropy_tap)(const unsigned char *bytes, uint32_t size);
 }
 
@@ -54,6 +55,16 @@ struct KeyStore {
     }
     static const unsigned char *psk_key() { static const unsigned char k[16] = { 1, 2, 3, 4, 5, 6, 7, 8, 9, 10, 11, 12, 13, 14, 15, 16 }; return k; }
     static const unsigned char *psk_id() { static const unsigned char i[8] = { 'v', 'e', 'r', 'i', 'f', 'p', 's', 'k' }; return i; }
+    // A freshly loaded key set (own ephemeral-key cache, ticket keys...). Caller frees with matrixSslDeleteKeys.
+    static sslKeys_t *fresh(bool server, int auth, bool with_identity) {
+        sslKeys_t *k = nullptr; int rc = 0;
+        static const char *sc[] = { "srv_rsa", "srv_ec", nullptr, "srv_ecrsa" }, *cc[] = { "cli_rsa", "cli_ec", nullptr, "cli_rsa" }, *ca[] = { "ca_rsa.pem", "ca_ec.pem", nullptr, "ca_rsa.pem" };
+        if (auth == AUTH_PSK) { if (matrixSslNewKeys(&k, NULL) < 0) return nullptr; rc = matrixSslLoadPsk(k, psk_key(), 16, psk_id(), 8); }
+        else if (server || with_identity) { std::string n = server ? sc[auth] : cc[auth]; rc = load(&k, (n + ".pem").c_str(), (n + ".key").c_str(), ca[auth]); }
+        else rc = load(&k, NULL, NULL, ca[auth]);
+        if (rc < 0) { if (k) matrixSslDeleteKeys(k); return nullptr; }
+        return k;
+    }
     void init() {
         if (ok) return;
         int rc = 0;
@@ -124,6 +135,9 @@ inline std::vector<Suite> suites_for(int ver) {
 // ------------------------------------------------------------------ events
 enum EvKind { EV_HS_COMPLETE = 1, EV_ALERT_RECV, EV_APP_DATA, EV_ERROR, EV_REQ_CLOSE, EV_ENCODE_OK, EV_ENCODE_FAIL, EV_ALERT_SENT };
 struct Event { int kind; int a; int b; };
+
+// certificate callback that accepts exactly what internal validation accepted ("strict")
+inline int32_t cb_strict(ssl_t *, psX509Cert_t *, int32_t alert) { return alert; }
 
 struct Endpoint;
 typedef std::function<void(Endpoint &, const uint8_t *, size_t)> AppDataHook;
@@ -211,8 +225,11 @@ struct Endpoint {
     // documented "call until it returns 0" loop when output is known to be pending (after REQUEST_SEND, a successful
     // encode, or session creation); timeouts are fired explicitly with dtls_timeout().
     bool out_pending = false;
-    void pump_out(size_t max_piece = (size_t) -1) {
+    size_t out_piece = (size_t) -1;   // default piece size for partial sends
+    bool defer_pump = false;          // do not drain inside receive processing (output accumulates in the library)
+    void pump_out(size_t max_piece = 0) {
         if (!ssl) return;
+        if (max_piece == 0) max_piece = out_piece;
         if (dtls) { if (!out_pending) return; out_pending = false; dtls_drain(); return; }
         for (int guard = 0; guard < 100000; guard++) {
             unsigned char *b = nullptr; sel();
@@ -286,8 +303,8 @@ struct Endpoint {
                 continue;
             }
             if (rc == MATRIXSSL_HANDSHAKE_COMPLETE) { complete_evt = true; events.push_back({ EV_HS_COMPLETE, 0, 0 }); return rc; }
-            if (rc == MATRIXSSL_REQUEST_SEND) { out_pending = true; pump_out(); return rc; }
-            if (rc < 0) { failed = true; events.push_back({ EV_ERROR, rc, 0 }); if (!dtls) pump_out(); return rc; }
+            if (rc == MATRIXSSL_REQUEST_SEND) { out_pending = true; if (!defer_pump) pump_out(); return rc; }
+            if (rc < 0) { failed = true; events.push_back({ EV_ERROR, rc, 0 }); if (!dtls && !defer_pump) pump_out(); return rc; }
             return rc; // SUCCESS / REQUEST_RECV / REQUEST_CLOSE
         }
         return last_rc;
@@ -394,6 +411,7 @@ inline std::vector<Rec> parse_records(const Bytes &w, bool dtls) {
 
 inline void global_open() {
     static bool done = false; if (done) return; done = true;
+    vf::leak_check_interval() = 1;   // attribute leaks to the case that caused them
     vfh_entropy_reset(1);
     if (matrixSslOpen() < 0) { fprintf(stderr, "[mxh] matrixSslOpen failed\n"); abort(); }
     keystore().init();
